@@ -15,6 +15,7 @@ def run(res, tier, replay=None):
     f3.r5_type_table(prog, res, prop="C16")
     c16.derived_cpointers(prog, res)
     c16.dead_reentry(prog, res, floor=8)
+    c16.emfile_retry(prog, res)
     res.assumptions = common.ASSUMPTIONS
     res.explanation = (
         "C16 structural clauses: (a) on every CFG path of sexp_gc the calls occur in the order mark*, weak reset, "
@@ -26,8 +27,8 @@ def run(res, tier, replay=None):
         "spot, and goes up in the function that stores a fileno into a port; (e) a non-owning cpointer that wraps memory reached "
         "through another cpointer's C value (generated struct-field getters, readdir) names that object as its parent; (d) every reference field of every type row is inside the range "
         "the marker traces (the clause shared with C02.R5: an untraced owner slot lets the owned object be finalized while "
-        "its owner is live). (f) no loop over a cursor (`for (; h; h = h->next)`) can be re-entered with the cursor exhausted - the collector's second finalization pass, which closes dynamic libraries, starts over at the first segment. Not decided: when a key becomes unreachable, descriptor "
-        "exhaustion behaviour.")
+        "its owner is live). (f) no loop over a cursor (`for (; h; h = h->next)`) can be re-entered with the cursor exhausted - the collector's second finalization pass, which closes dynamic libraries, starts over at the first segment. (g) the collect-and-retry loops on descriptor exhaustion (condition tests errno == EMFILE): by constant propagation over the retry counter, the retry is taken on the first exhaustion and the sexp_gc call inside the loop is enabled on that retry. Not decided: when a key becomes unreachable, "
+        "whether the collection actually frees a descriptor.")
     if tier == "thorough":
         common.thorough_mutations(res, "C16", {
             "C16.a": lambda p, r: c16.phase_order(p, r),
@@ -36,4 +37,5 @@ def run(res, tier, replay=None):
             "C16.d": lambda p, r: f3.r5_type_table(p, r, prop="C16"),
             "C16.e": lambda p, r: c16.derived_cpointers(p, r, floor=0),
             "C16.f": lambda p, r: c16.dead_reentry(p, r, floor=0),
+            "C16.g": lambda p, r: c16.emfile_retry(p, r, floor=0),
         })
